@@ -131,6 +131,9 @@ type bstDriver interface {
 	contains(i int) bool
 	min() float64
 	max() float64
+	minIs(i int) bool // exact comparison in the element type (float64 cannot tell neighbouring int64 values apart)
+	maxIs(i int) bool
+	show(i int) string
 	dump() string
 	val(i int) float64
 	nvals() int
@@ -149,6 +152,9 @@ func (b *bstOf[T]) remove(i int) bool   { return b.t.Remove(b.vals[i]) }
 func (b *bstOf[T]) contains(i int) bool { return b.t.Contains(b.vals[i]) }
 func (b *bstOf[T]) min() float64        { return float64(b.t.Min()) }
 func (b *bstOf[T]) max() float64        { return float64(b.t.Max()) }
+func (b *bstOf[T]) minIs(i int) bool    { return b.t.Min() == b.vals[i] }
+func (b *bstOf[T]) maxIs(i int) bool    { return b.t.Max() == b.vals[i] }
+func (b *bstOf[T]) show(i int) string   { return fmt.Sprint(b.vals[i]) }
 func (b *bstOf[T]) dump() string        { return core.Dump(b.t) }
 func (b *bstOf[T]) val(i int) float64   { return float64(b.vals[i]) }
 func (b *bstOf[T]) nvals() int          { return len(b.vals) }
@@ -161,6 +167,11 @@ func bstDrivers() []bstDriver {
 		&bstOf[int32]{vals: []int32{math.MinInt32, -1, 0, 1, math.MaxInt32}, nm: "int32"},
 		&bstOf[int64]{vals: []int64{math.MinInt64, -1, 0, 1, math.MaxInt64}, nm: "int64"},
 		&bstOf[int]{vals: []int{math.MinInt, -1, 0, 1, math.MaxInt}, nm: "int"},
+		// neighbours that collapse when converted to float64 (53-bit mantissa) or float32
+		&bstOf[int64]{vals: []int64{math.MinInt64, math.MinInt64 + 1, 1 << 53, 1<<53 + 1, math.MaxInt64 - 1, math.MaxInt64}, nm: "int64-neighbours"},
+		&bstOf[int]{vals: []int{-(1 << 60) - 3, 1<<60 + 3, 1<<60 + 5, 1<<60 + 7}, nm: "int-neighbours"},
+		&bstOf[int32]{vals: []int32{1 << 24, 1<<24 + 1, math.MaxInt32 - 1, math.MaxInt32}, nm: "int32-neighbours"},
+		&bstOf[float64]{vals: []float64{0, 5e-324, 1, math.Nextafter(1, 2), math.Nextafter(math.MaxFloat64, 0), math.MaxFloat64}, nm: "float64-neighbours"},
 		&bstOf[float32]{vals: []float32{-math.MaxFloat32, -1.5, 0, 1.5, math.MaxFloat32}, nm: "float32"},
 		&bstOf[float64]{vals: []float64{-math.MaxFloat64, -1.5, 0, 1.5, math.MaxFloat64}, nm: "float64"},
 	}
@@ -176,7 +187,7 @@ func applyBst(d bstDriver, hist []bstOp) (string, string) {
 		for i, n := range count {
 			size += n
 			if got := d.contains(i); got != (n > 0) {
-				return fmt.Sprintf("after step %d (%s): Contains(%v) = %v but the multiset holds %d of it", step, what, d.val(i), got, n)
+				return fmt.Sprintf("after step %d (%s): Contains(%v) = %v but the multiset holds %d of it", step, what, d.show(i), got, n)
 			}
 		}
 		if size > 0 {
@@ -189,17 +200,17 @@ func applyBst(d bstDriver, hist []bstOp) (string, string) {
 					hi = i
 				}
 			}
-			if got := d.min(); got != d.val(lo) {
-				return fmt.Sprintf("after step %d (%s): Min = %v, multiset minimum is %v", step, what, got, d.val(lo))
+			if got := d.min(); !d.minIs(lo) {
+				return fmt.Sprintf("after step %d (%s): Min = %v, multiset minimum is %v", step, what, got, d.show(lo))
 			}
-			if got := d.max(); got != d.val(hi) {
-				return fmt.Sprintf("after step %d (%s): Max = %v, multiset maximum is %v", step, what, got, d.val(hi))
+			if got := d.max(); !d.maxIs(hi) {
+				return fmt.Sprintf("after step %d (%s): Max = %v, multiset maximum is %v", step, what, got, d.show(hi))
 			}
 		}
 		return ""
 	}
 	for step, op := range hist {
-		what := fmt.Sprintf("%s %v", op.Kind, d.val(op.Arg))
+		what := fmt.Sprintf("%s %v", op.Kind, d.show(op.Arg))
 		switch op.Kind {
 		case "ins":
 			d.insert(op.Arg)
@@ -208,7 +219,7 @@ func applyBst(d bstDriver, hist []bstOp) (string, string) {
 			got := d.remove(op.Arg)
 			want := count[op.Arg] > 0
 			if got != want {
-				return "", fmt.Sprintf("step %d: Remove(%v) returned %v but the multiset holds %d of it", step, d.val(op.Arg), got, count[op.Arg])
+				return "", fmt.Sprintf("step %d: Remove(%v) returned %v but the multiset holds %d of it", step, d.show(op.Arg), got, count[op.Arg])
 			}
 			if want {
 				count[op.Arg]--
@@ -227,7 +238,7 @@ func bstHist(d bstDriver, h []bstOp) string {
 		if i > 0 {
 			s += " "
 		}
-		s += fmt.Sprintf("%s(%v)", op.Kind, d.val(op.Arg))
+		s += fmt.Sprintf("%s(%v)", op.Kind, d.show(op.Arg))
 	}
 	return s
 }
